@@ -1,5 +1,5 @@
 (* ManagerP.v — C09: interleaved sessions never mix or leak unit-of-work state. *)
-From Continuum Require Import Model.Base Model.VTable Model.Core Model.Manager.
+From Continuum Require Import Model.Base Model.VTable Model.Core Model.Manager Proofs.CoreP.
 
 Section ManagerP.
   Variable dbapi : nat -> nat.
@@ -638,5 +638,170 @@ Section ManagerP.
       apply non_interference2; try assumption; try (intros sid c []); try (intros k []); reflexivity.
     Qed.
 
+
+    (* ------------------------------------------------------------------------------------------
+       Layer M refines Layer B: what a session sees of the manager IS the state of the unit-of-work
+       machine (Model/Core.v) run on the session's own events.  Together with non-interference this
+       carries every Layer-B theorem (C01, C02, C03, C07, C10, C11, C13, C17, C18) over to each session
+       of any interleaving. *)
+    Definition core_view (v : option uow * option nat * option (db * db * bool)) : state :=
+      let '(d, cm, e) := match snd v with Some x => x | None => (db0, db0, false) end in
+      mks d cm (match fst (fst v) with Some u => u | None => uow0 end) e.
+
+    Lemma core_of_core_view G s : core_of G (ss_conn s) = core_view (view G s).
+    Proof.
+      unfold core_of, db_of, core_view, view. simpl.
+      destruct (aget (g_dbs G) (ss_conn s)) as [[[d cm] e]|]; reflexivity.
+    Qed.
+
+    Lemma core_view_full u m d cm e : core_view (Some u, m, Some (d, cm, e)) = mks d cm u e.
+    Proof. reflexivity. Qed.
+
+    Lemma state_eta st : mks (s_db st) (s_committed st) (s_uow st) (s_err st) = st.
+    Proof. destruct st; reflexivity. Qed.
+
+    (* the connection of s holds a unit of work only while s is registered *)
+    Definition reg_ok (s : sess) (G : gstate) : Prop :=
+      forall u, aget (g_uows G) (ss_conn s) = Some u -> aget (g_smap G) (ss_id s) = Some (ss_conn s).
+
+    Lemma smap_entry_is_conn G s c :
+      owns s -> smap_ok conn_of G -> aget (g_smap G) (ss_id s) = Some c -> c = ss_conn s.
+    Proof. intros Hco Hok E. rewrite (Hok _ _ (in_smap_aget _ _ _ E)). exact Hco. Qed.
+
+    Lemma core_of_gstep g G s e :
+      owns s -> smap_ok conn_of G -> reg_ok s G ->
+      core_of (gstep g G s e) (ss_conn s) = step g (core_of G (ss_conn s)) e /\ reg_ok s (gstep g G s e).
+    Proof.
+      intros Hco Hok Hreg. rewrite !core_of_core_view.
+      assert (Hflushlike : forall e0,
+        g_versioning g = true ->
+        let G1 := Manager.register G s in
+        let st := step g (core_of G1 (ss_conn s)) e0 in
+        core_view (view (store G1 (ss_conn s) st true) s) = step g (core_view (view G s)) e0 /\
+        reg_ok s (store G1 (ss_conn s) st true)).
+      { intros e0 Hv G1 st.
+        pose proof (view_register_same conn_of G s conn_inj Hco Hok) as HR. fold G1 in HR.
+        assert (Hcore : core_of G1 (ss_conn s) = core_view (view G s)).
+        { rewrite core_of_core_view, HR. unfold core_view, view. simpl.
+          destruct (aget (g_dbs G) (ss_conn s)) as [[[d cm] e1]|]; destruct (aget (g_uows G) (ss_conn s)); reflexivity. }
+        split.
+        - rewrite (view_store_same _ _ _ _ s eq_refl). unfold core_view. simpl.
+          unfold st. rewrite Hcore. apply state_eta.
+        - intros u _. unfold store. cbn [g_smap].
+          assert (E : aget (g_smap G1) (ss_id s) =
+                      Some (match aget (g_smap G) (ss_id s) with Some c => c | None => ss_conn s end)).
+          { unfold view in HR. inversion HR. reflexivity. }
+          rewrite E. destruct (aget (g_smap G) (ss_id s)) as [c|] eqn:Es; [|reflexivity].
+          rewrite (smap_entry_is_conn G s c Hco Hok Es). reflexivity. }
+      assert (Hplain : forall st',
+        s_uow st' = s_uow (core_view (view G s)) ->
+        core_view (view (store G (ss_conn s) st' false) s) = st' /\ reg_ok s (store G (ss_conn s) st' false)).
+      { intros st' Hu. split.
+        - rewrite (view_store_same _ _ _ _ s eq_refl). unfold core_view. simpl.
+          assert (Hx : match aget (g_uows G) (ss_conn s) with Some u => u | None => uow0 end = s_uow st').
+          { rewrite Hu. unfold core_view, view. simpl.
+            destruct (aget (g_dbs G) (ss_conn s)) as [[[d cm] e1]|]; reflexivity. }
+          rewrite Hx. apply state_eta.
+        - intros u Hu'. unfold store in *. simpl in *. apply (Hreg u). exact Hu'. }
+      unfold Manager.gstep. destruct e as [objs ents assoc| | | |a].
+      - (* Flush *)
+        destruct (g_versioning g) eqn:Hv.
+        + exact (Hflushlike (Flush objs ents assoc) eq_refl).
+        + rewrite <- core_of_core_view. apply Hplain. rewrite <- core_of_core_view. simpl.
+          apply (flush_off g (core_of G (ss_conn s)) objs ents assoc Hv).
+      - (* Commit *)
+        set (st := step g (core_of G (ss_conn s)) Commit).
+        set (G0 := store G (ss_conn s) st false).
+        assert (Hok0 : smap_ok conn_of G0) by (unfold G0, store; simpl; exact Hok).
+        rewrite (view_clear_same conn_of G0 s Hco Hok0).
+        assert (Hdb : aget (g_dbs G0) (ss_conn s) = Some (s_db st, s_committed st, s_err st))
+          by (unfold G0, store; simpl; apply aget_aset_same).
+        assert (Hsm : aget (g_smap G0) (ss_id s) = aget (g_smap G) (ss_id s)) by reflexivity.
+        assert (Huw : aget (g_uows G0) (ss_conn s) = aget (g_uows G) (ss_conn s)) by reflexivity.
+        rewrite <- core_of_core_view. fold st.
+        destruct (aget (g_smap G0) (ss_id s)) as [c|] eqn:Es.
+        + split.
+          * rewrite Hdb. unfold core_view. simpl. unfold st. simpl. reflexivity.
+          * intros u Hu. exfalso.
+            pose proof (view_clear_same conn_of G0 s Hco Hok0) as HV. rewrite Es in HV.
+            unfold view in HV. inversion HV as [[H1 H2 H3]]. rewrite H1 in Hu. discriminate.
+        + assert (Hnone : aget (g_uows G) (ss_conn s) = None).
+          { destruct (aget (g_uows G) (ss_conn s)) as [u|] eqn:Eu; [|reflexivity].
+            rewrite (Hreg u Eu) in Hsm. rewrite Hsm in Es. discriminate. }
+          split.
+          * unfold view. rewrite Hdb, Huw, Hnone. unfold core_view. simpl. unfold st. simpl. reflexivity.
+          * intros u Hu. unfold Manager.clear in Hu. rewrite Es in Hu. rewrite Huw, Hnone in Hu. discriminate.
+      - (* Rollback *)
+        set (st := step g (core_of G (ss_conn s)) Rollback).
+        set (G0 := store G (ss_conn s) st false).
+        set (G1 := clear_connection G0 (ss_conn s)).
+        assert (Hok0 : smap_ok conn_of G0) by (unfold G0, store; simpl; exact Hok).
+        assert (Hok1 : smap_ok conn_of G1).
+        { apply (smap_ok_sub conn_of G0); [|exact Hok0]. intros x Hx. unfold G1, Manager.clear_connection in Hx.
+          simpl in Hx. apply filter_In in Hx as [Hx _]. exact Hx. }
+        pose proof (view_clear_connection_same G0 s) as HV1. fold G1 in HV1.
+        assert (Hdb : aget (g_dbs G1) (ss_conn s) = Some (s_db st, s_committed st, s_err st)).
+        { unfold G1, Manager.clear_connection, G0, store. simpl. apply aget_aset_same. }
+        assert (Hu1 : aget (g_uows G1) (ss_conn s) = None).
+        { unfold view in HV1. inversion HV1. reflexivity. }
+        rewrite (view_clear_same conn_of G1 s Hco Hok1). rewrite <- core_of_core_view. fold st.
+        destruct (aget (g_smap G1) (ss_id s)) as [c|] eqn:Es.
+        + split.
+          * rewrite Hdb. unfold core_view. simpl. unfold st. simpl. reflexivity.
+          * intros u Hu. exfalso.
+            pose proof (view_clear_same conn_of G1 s Hco Hok1) as HV. rewrite Es in HV.
+            unfold view in HV. inversion HV as [[H1 H2 H3]]. rewrite H1 in Hu. discriminate.
+        + split.
+          * unfold view. rewrite Hdb, Hu1. unfold core_view. simpl. unfold st. simpl. reflexivity.
+          * intros u Hu. unfold Manager.clear in Hu. rewrite Es in Hu. rewrite Hu1 in Hu. discriminate.
+      - (* ManualTx *)
+        destruct (g_versioning g) eqn:Hv.
+        + exact (Hflushlike ManualTx eq_refl).
+        + rewrite <- core_of_core_view. apply Hplain. rewrite <- core_of_core_view. simpl. rewrite Hv. reflexivity.
+      - (* RawAssoc *)
+        rewrite (core_of_core_view G s).
+        destruct (aget (g_uows G) (ss_conn s)) as [u0|] eqn:Eu.
+        + split.
+          * rewrite (view_store_same _ _ _ _ s eq_refl). rewrite core_view_full. apply state_eta.
+          * intros u _. unfold store. cbn [g_smap]. apply (Hreg u0). exact Eu.
+        + assert (Hsame : step g (core_view (view G s)) (RawAssoc a) = core_view (view G s)).
+          { unfold view. rewrite Eu. unfold core_view. simpl.
+            destruct (aget (g_dbs G) (ss_conn s)) as [[[d cm] e1]|]; simpl; rewrite andb_false_r; reflexivity. }
+          rewrite Hsame. apply Hplain. reflexivity.
+    Qed.
+
+    (* a session run alone: its view of the manager after its events = the core machine on them *)
+    Theorem solo_run_is_core_run g s : forall evs G,
+      owns s -> smap_ok conn_of G -> reg_ok s G ->
+      core_of (fold_left (fun G e => gstep g G s e) evs G) (ss_conn s) =
+      fold_left (step g) evs (core_of G (ss_conn s)).
+    Proof.
+      induction evs as [|e evs IH]; intros G Hco Hok Hreg; simpl; [reflexivity|].
+      destruct (core_of_gstep g G s e Hco Hok Hreg) as [E R].
+      rewrite IH; [rewrite E; reflexivity | exact Hco | apply gstep_smap_ok; assumption | exact R].
+    Qed.
+
+    Lemma fold_own_steps g s : forall (l : list (sess * ev)) G,
+      (forall se, In se l -> fst se = s) ->
+      fold_left (fun G se => gstep g G (fst se) (snd se)) l G =
+      fold_left (fun G e => gstep g G s e) (map snd l) G.
+    Proof.
+      induction l as [|[s' e] l IH]; intros G H; simpl; [reflexivity|].
+      assert (s' = s) by (apply (H (s', e)); left; reflexivity). subst s'.
+      apply IH. intros se Hin. apply H. right. exact Hin.
+    Qed.
+
+    (* in ANY interleaving with independent sessions, the database, the committed database and the unit of
+       work of session s are those of the unit-of-work machine run on s's own events *)
+    Theorem interleaved_session_is_core_run g s sched :
+      owns s -> sched_ok s sched ->
+      core_of (grun dbapi closed g sched) (ss_conn s) = run g (map snd (filter (mine s) sched)).
+    Proof.
+      intros Hs Hok.
+      rewrite (core_of_view _ _ s (interleaving_equals_solo_run g s sched Hs Hok)).
+      unfold grun. rewrite (fold_own_steps g s).
+      - rewrite solo_run_is_core_run; [reflexivity | exact Hs | intros sid c [] | intros u Hu; discriminate].
+      - intros se Hin. apply filter_In in Hin as [_ Hm]. apply mine_spec. exact Hm.
+    Qed.
   End NonInterference.
 End ManagerP.
